@@ -5,6 +5,7 @@ import (
 	"fmt"
 	"os"
 	"sort"
+	"strings"
 )
 
 type Ctx struct {
@@ -33,7 +34,12 @@ func main() {
 	flag.StringVar(&repoDir, "repo", "/repo", "repository root")
 	flag.StringVar(&verifDir, "verif", "/verif", "verif root")
 	worker := flag.Bool("worker", false, "internal: run as session worker")
+	stress12 := flag.String("stress12", "", "internal: run one C12 stress scenario (seed,procs,lines,mode)")
 	flag.Parse()
+	if *stress12 != "" {
+		stressWorkerMain(strings.Split(*stress12, ","))
+		return
+	}
 	if *worker {
 		workerMain()
 		return
